@@ -1,9 +1,9 @@
 ------------------------------- MODULE RegexObs -------------------------------
 (* Judges what the real mlr computed.  Two kinds of lines.                                                        *)
 (*                                                                                                               *)
-(* fam = "call": one pattern, one subject, one case mode; every function, the regex spelled in several ways:       *)
-(*   [re, ci, s, t: the replacement with references, outs: <<[sp, exit, v: the 12 results [k typeof, s characters],  *)
-(*    x: the map of strmatchx]>>]                                                                                 *)
+(* fam = "call": one pattern, one case mode, every subject; every function, the regex spelled in several ways:      *)
+(*   [re, ci, t: the replacement with references, subs: <<[s, outs: <<[sp, exit, v: the 12 results [k typeof,       *)
+(*    s characters], x: the map of strmatchx]>>]>>]     (spellings with the same output share one entry, sp "a+b") *)
 (*   sp: "lit" "P" | "field" $r holding P            (ci = FALSE)                                                  *)
 (*       "liti" "P"i | "flag" "(?i)P" | "fieldflag" $r holding (?i)P     (ci = TRUE)                               *)
 (*   the 12 results:  1 sub(s,R,"_")  2 sub(s,R,t)  3 gsub(s,R,"_")  4 gsub(s,R,t)  5 regextract(s,R)                *)
@@ -11,7 +11,7 @@
 (*     9 s =~ R   10 "<\0:\1:\2>" after it   11 s !=~ R   12 "\1:\0" after it       (9-12 in a process of their own) *)
 (* fam = "prog": a program of RegexProg.tla and the records that came out: [p, exit, out]                          *)
 (*                                                                                                               *)
-(* Prints [line, bad] for a line that does not conform (bad: <<spelling, result number, part>>), and  *)
+(* Prints [line, bad] for a line that does not conform (bad: <<subject number, spelling, result number, part>> / <<record, field, part>>), and  *)
 (* [uline] for a program that leaves the documented region (not constrained; counted by the harness).            *)
 EXTENDS RegexProg, Json
 CONSTANT ObsFile
@@ -24,9 +24,10 @@ MT1 == <<"lt", "bsl", "0", "colon", "bsl", "1", "colon", "bsl", "2", "gt">>
 MT2 == <<"bsl", "1", "colon", "bsl", "0">>
 IsStrV(v, s) == v.k \in {"string", "empty"} /\ v.s = s /\ ((v.k = "empty") = (s = <<>>))       \* typeof("") is "empty"
 IsBoolV(v, b) == v.k = "boolean" /\ v.s = <<IF b THEN "true" ELSE "false">>
-Bad(o) ==
+\* q: one subject of the line with what came out: [s, outs]
+BadQ(o, q, idx) ==
   LET re == o.re
-      s == o.s
+      s == q.s
       ci == o.ci
       m == Find(re, s, ci)
       ms == All(re, s, ci)
@@ -45,13 +46,16 @@ Bad(o) ==
       Part(out, i) == IF i # 8 \/ out.exit # 0 \/ out.v[8].k # "map" THEN ""
                       ELSE IF out.x.keys # x0.keys THEN "keys"
                       ELSE IF out.x.full # x0.full \/ out.x.caps # x0.caps THEN "text" ELSE "index"
-  IN UNION {{<<o.outs[j].sp, ToString(i), Part(o.outs[j], i)>> : i \in {i \in 1..12 : o.outs[j].exit # 0 \/ ~OKv(o.outs[j], i)}} : j \in 1..Len(o.outs)}
+  IN UNION {{<<ToString(idx), q.outs[j].sp, ToString(i), Part(q.outs[j], i)>> : i \in {i \in 1..12 : q.outs[j].exit # 0 \/ ~OKv(q.outs[j], i)}} :
+              j \in 1..Len(q.outs)}
+Bad(o) == UNION {BadQ(o, o.subs[k], k) : k \in 1..Len(o.subs)}
 
 Judge(o) ==
   IF o.fam = "call" THEN LET bad == Bad(o) IN bad = {} \/ PrintT(ToJson([line |-> ln, bad |-> bad]))
   ELSE LET r0 == Run(o.p, FALSE)
            r1 == Run(o.p, TRUE)
        IN IF r0.u \/ r1.u THEN PrintT(ToJson([uline |-> ln]))
-          ELSE (o.exit = 0 /\ (OutOK(r0.rs, o.out) \/ OutOK(r1.rs, o.out))) \/ PrintT(ToJson([line |-> ln, bad |-> {<<"prog", "0", "">>}]))
+          ELSE (o.exit = 0 /\ (OutOK(r0.rs, o.out) \/ OutOK(r1.rs, o.out)))
+               \/ PrintT(ToJson([line |-> ln, bad |-> {IF o.exit # 0 THEN <<"0", "0", "exit">> ELSE Diff(r0.rs, o.out)}]))
 Conforms == Judge(Obs[ln])
 =============================================================================
